@@ -7,6 +7,8 @@
 (*             `hit` = the API calls during which the fault fired          *)
 (*  c16_rfault same for the reader program                                 *)
 (*  c16_chunk  re-run with a short-transfer schedule                       *)
+(*  c16_wintr  fault of the retryable kind (Interrupted) at operation `at` *)
+(*  c16_wretry a failed finalize tried again on the same writer            *)
 (* Model of the intended behaviour: a device error inside a call unwinds   *)
 (* to that call's result (Err); nothing is retried or swallowed; finalize  *)
 (* reports Ok only after the final flush succeeded, so what is durable is  *)
@@ -35,6 +37,19 @@ T_WFault ==
     /\ FaultSurfaces(E)
     /\ ChkP(E.finalize_ok = 1 => E.durable_complete = 1, {"C16"}, "finalize-ok-but-device-does-not-hold-the-complete-file")
     /\ nw' = nw + 1 /\ UNCHANGED <<wops, rops, nr>>
+\* the retryable error kind (RetrySpec): the operation may be repeated inside the call, which may then succeed; whenever
+\* finalize reports Ok the device holds the complete file (the same bytes, or at least a file that reads the same)
+T_WIntr ==
+    /\ IsEv("c16_wintr")
+    /\ ChkP(E.panicked = 0, {"C16", "C10"}, "panic-under-device-fault")
+    /\ ChkP(E.finalize_ok = 1 => (E.durable_complete = 1 \/ E.reads_complete = 1), {"C16"}, "finalize-ok-after-an-interrupted-device-operation-but-the-device-does-not-hold-the-complete-file")
+    /\ UNCHANGED vars
+\* a failed finalize tried again: Ok only with a complete file
+T_WRetry ==
+    /\ IsEv("c16_wretry")
+    /\ ChkP(E.panicked = 0, {"C16", "C10"}, "panic-under-device-fault")
+    /\ ChkP(E.retry_ok = 1 => E.reads_complete = 1, {"C16"}, "repeated-finalize-ok-but-the-device-does-not-hold-the-complete-file")
+    /\ UNCHANGED vars
 T_RFault ==
     /\ IsEv("c16_rfault")
     /\ ChkP(E.at = nr /\ E.at < rops, {"C16"}, "fault-positions-not-exhaustive")
@@ -61,6 +76,6 @@ T_ReadLoops ==
     /\ IsEv("c16_readloops")
     /\ \A k \in 1..Len(E.loops) : ChkP(LoopOk(E.loops[k], 1, 1024), {"C16"}, "page-reload-loop-does-not-follow-ChunkSpec")
     /\ UNCHANGED vars
-TNext == T_ReadLoops \/ T_Reset \/ T_Ref \/ T_RRef \/ T_WFault \/ T_RFault \/ T_Chunk
+TNext == T_WIntr \/ T_WRetry \/ T_ReadLoops \/ T_Reset \/ T_Ref \/ T_RRef \/ T_WFault \/ T_RFault \/ T_Chunk
 TSpec == TInit /\ [][TNext]_<<vars, l>>
 =============================================================================
